@@ -5,6 +5,9 @@
 //
 // Every scenario drives a real BatchSpanProcessor registered in a real TracerProvider (span.End is
 // the real path into OnEnd) and records the API-level history plus the hook events as ndjson.
+// The environment is part of a scenario: what the exporter answers to its k-th call (ok / error /
+// timeout = gives up only when its ctx is done), and which callers' contexts become done and when
+// (already cancelled, cancelled at a scripted point / after a random delay, far deadline).
 package main
 
 import (
@@ -15,11 +18,14 @@ import (
 	"fmt"
 	"math/rand"
 	"os"
+	"runtime"
+	"strconv"
 	"strings"
 	"sync"
 	"sync/atomic"
 	"time"
 
+	"github.com/go-logr/logr"
 	"go.opentelemetry.io/otel"
 	sdktrace "go.opentelemetry.io/otel/sdk/trace"
 	"go.opentelemetry.io/otel/sdk/verifh/vh"
@@ -35,7 +41,7 @@ type procInfo struct {
 	sc   int
 }
 
-// Scenario is one configuration + workload (+ optional script).
+// Scenario is one configuration + workload + environment (+ optional script).
 type Scenario struct {
 	Producers    int      `json:"producers"`
 	SpansPer     int      `json:"spansPer"`
@@ -47,23 +53,89 @@ type Scenario struct {
 	Stoppers     int      `json:"stoppers"`
 	BatchTimeout int      `json:"batchTimeoutUs"` // microseconds; 0 = one hour (timer never fires)
 	ExportTOms   int      `json:"exportTimeoutMs"`
-	ExpMode      string   `json:"expMode"` // "ok" | "mixed" (sleep / error / wait-for-deadline at random)
-	Perturb      float64  `json:"perturb"`
-	Script       []string `json:"script,omitempty"`
-	Name         string   `json:"name,omitempty"`
-	Kind         string   `json:"kind,omitempty"` // "batch" (default) | "simple" (SimpleSpanProcessor)
-	Seed         int64    `json:"seed"`
+	ExpMode      string   `json:"expMode"`            // "ok" | "mixed" (sleep / error / wait-for-ctx at random)
+	Outcomes     []string `json:"outcomes,omitempty"` // scripted: answer of the k-th ExportSpans call (then "ok")
+	// caller contexts, by proc name ("f1", "f1.2", "s1"): "" = Background | "cancelled" (done before the
+	// call) | "cancel" (cancelled at the scripted point / after CtxAfterUs) | "deadline" (carries a far
+	// deadline; cancelled like "cancel" if scripted / CtxAfterUs is set)
+	Ctx        map[string]string `json:"ctx,omitempty"`
+	CtxAfterUs map[string]int    `json:"ctxAfterUs,omitempty"`
+	SlowDoneUs int               `json:"slowDoneUs"` // a done ctx dawdles in Done() (natural gate before a select)
+	Perturb    float64           `json:"perturb"`
+	Script     []string          `json:"script,omitempty"`
+	Name       string            `json:"name,omitempty"`
+	Kind       string            `json:"kind,omitempty"` // "batch" (default) | "simple" (SimpleSpanProcessor)
+	Seed       int64             `json:"seed"`
 }
 
+// ------------------------------------------------------------ SDK debug log -> Log events
+// exportSpans logs `exporting spans ... total_dropped` immediately before it calls ExportSpans, on the
+// same goroutine: the sink parks the value under the goroutine id and the scenario's exporter picks
+// it up, so a leaked worker of an earlier scenario cannot speak for the current one.
+var pendingTotals sync.Map // goroutine id -> total_dropped (int)
+
+func goid() int64 {
+	var b [64]byte
+	n := runtime.Stack(b[:], false)
+	f := strings.Fields(string(b[:n]))
+	if len(f) < 2 {
+		return -1
+	}
+	id, _ := strconv.ParseInt(f[1], 10, 64)
+	return id
+}
+
+type logSink struct{}
+
+func (logSink) Init(logr.RuntimeInfo)            {}
+func (logSink) Enabled(int) bool                 { return true }
+func (logSink) Error(error, string, ...any)      {}
+func (s logSink) WithValues(...any) logr.LogSink { return s }
+func (s logSink) WithName(string) logr.LogSink   { return s }
+func (logSink) Info(level int, msg string, kv ...any) {
+	if msg != "exporting spans" {
+		return
+	}
+	for i := 0; i+1 < len(kv); i += 2 {
+		if k, _ := kv[i].(string); k == "total_dropped" {
+			switch v := kv[i+1].(type) {
+			case uint32:
+				pendingTotals.Store(goid(), int(v))
+			case int:
+				pendingTotals.Store(goid(), v)
+			}
+		}
+	}
+}
+
+// ------------------------------------------------------------ exporter
 type recExporter struct {
-	tw      *vh.TraceWriter
-	sc      int
-	ids     map[trace.SpanID]int
-	sched   *vh.Sched
-	mode    string
-	rng     *rand.Rand
-	mu      sync.Mutex
-	exports int64
+	tw       *vh.TraceWriter
+	sc       int
+	ids      map[trace.SpanID]int
+	sched    *vh.Sched
+	mode     string
+	outcomes []string
+	canWait  bool // "timeout" answers are allowed (the ctx will be done soon: small ExportTimeout)
+	rng      *rand.Rand
+	mu       sync.Mutex
+	exports  int64
+	failed   int64
+	timedOut int64
+	shut     chan struct{}
+	shutOnce sync.Once
+}
+
+func errClass(err error) string {
+	switch {
+	case err == nil:
+		return ""
+	case errors.Is(err, context.Canceled), errors.Is(err, context.DeadlineExceeded):
+		return "ctx"
+	case err.Error() == "export failed":
+		return "export"
+	}
+	return "other:" + err.Error()
 }
 
 func (e *recExporter) ExportSpans(ctx context.Context, spans []sdktrace.ReadOnlySpan) error {
@@ -71,46 +143,87 @@ func (e *recExporter) ExportSpans(ctx context.Context, spans []sdktrace.ReadOnly
 	for i, s := range spans {
 		ids[i] = e.ids[s.SpanContext().SpanID()]
 	}
+	if t, ok := pendingTotals.LoadAndDelete(goid()); ok {
+		e.tw.Emit(map[string]any{"ev": "Log", "sc": e.sc, "total": t.(int)})
+	}
 	_, hasDL := ctx.Deadline()
 	e.tw.Emit(map[string]any{"ev": "ExportBegin", "sc": e.sc, "ids": ids, "deadline": hasDL})
-	atomic.AddInt64(&e.exports, 1)
+	k := int(atomic.AddInt64(&e.exports, 1))
 	e.sched.Arrive("x@exp.begin")
-	var err error
-	if e.mode == "mixed" {
+	answer := "ok"
+	var nap time.Duration
+	if k <= len(e.outcomes) {
+		answer = e.outcomes[k-1]
+	} else if e.mode == "mixed" {
 		e.mu.Lock()
-		k := e.rng.Intn(8)
-		d := time.Duration(e.rng.Intn(1500)) * time.Microsecond
+		r := e.rng.Intn(8)
+		nap = time.Duration(e.rng.Intn(1500)) * time.Microsecond
 		e.mu.Unlock()
-		switch k {
+		switch r {
 		case 0, 1:
-			time.Sleep(d)
+			answer = "sleep"
 		case 2:
-			err = errors.New("export failed")
+			answer = "error"
 		case 3:
-			if hasDL {
-				<-ctx.Done() // exporter that only gives up at the export timeout
-				err = ctx.Err()
+			if e.canWait {
+				answer = "timeout"
 			}
 		}
 	}
-	e.tw.Emit(map[string]any{"ev": "ExportEnd", "sc": e.sc})
+	var err error
+	switch answer {
+	case "sleep":
+		time.Sleep(nap)
+	case "error":
+		err = errors.New("export failed")
+		atomic.AddInt64(&e.failed, 1)
+	case "timeout":
+		// an exporter that gives up only when its ctx is done (export timeout / caller's ctx); the cap
+		// keeps a scenario whose ctx never becomes done from hanging (the answer is then an error)
+		if ctx.Done() != nil {
+			select {
+			case <-ctx.Done():
+				err = ctx.Err()
+			case <-time.After(400 * time.Millisecond):
+				err = errors.New("export failed")
+			}
+		} else {
+			err = errors.New("export failed")
+		}
+		atomic.AddInt64(&e.timedOut, 1)
+	}
+	e.tw.Emit(map[string]any{"ev": "ExportEnd", "sc": e.sc, "err": errClass(err)})
 	return err
 }
 
 func (e *recExporter) Shutdown(context.Context) error {
 	e.tw.Emit(map[string]any{"ev": "ExporterShutdown", "sc": e.sc})
+	e.shutOnce.Do(func() { close(e.shut) })
 	return nil
 }
 
-func errStr(err error) string {
-	if err == nil {
-		return ""
-	}
-	return err.Error()
+// hctx is the ctx handed to ForceFlush / Shutdown. Once it is done, Done() dawdles: the context is a
+// user-supplied component, so this is a natural gate in front of every `select` on ctx.Done() -- it
+// lets a goroutine the SDK started just before such a select (ForceFlush's export helper) go first.
+type hctx struct {
+	context.Context
+	slow time.Duration
 }
 
-// runScenario executes sc on the real code. It returns the names of goroutines still blocked after
-// the grace period (blocking forever is C15's concern; here they are only reported).
+func (c hctx) Done() <-chan struct{} {
+	if c.slow > 0 && c.Context.Err() != nil {
+		time.Sleep(c.slow)
+	}
+	return c.Context.Done()
+}
+
+type callCtx struct {
+	ctx    context.Context
+	kind   string // as logged: "bg" | "cancel" | "deadline"
+	expire func() // logs CtxDone, then cancels (nil for Background)
+}
+
+// runScenario executes sc on the real code.
 func runScenario(scn int, sc Scenario, tw *vh.TraceWriter, res *vh.Result) {
 	rng := rand.New(rand.NewSource(sc.Seed))
 	sched := vh.NewSched(sc.Script, sc.Seed+7)
@@ -118,7 +231,8 @@ func runScenario(scn int, sc Scenario, tw *vh.TraceWriter, res *vh.Result) {
 	sched.Timeout = 100 * time.Millisecond
 	ids := map[trace.SpanID]int{}
 	owner := map[int]string{} // span id -> "p<i>:<k>"
-	exp := &recExporter{tw: tw, sc: scn, ids: ids, sched: sched, mode: sc.ExpMode, rng: rand.New(rand.NewSource(sc.Seed + 1))}
+	exp := &recExporter{tw: tw, sc: scn, ids: ids, sched: sched, mode: sc.ExpMode, outcomes: sc.Outcomes,
+		canWait: sc.ExportTOms > 0 && sc.ExportTOms <= 50, rng: rand.New(rand.NewSource(sc.Seed + 1)), shut: make(chan struct{})}
 
 	opts := []sdktrace.BatchSpanProcessorOption{
 		sdktrace.WithMaxQueueSize(sc.QCap), sdktrace.WithMaxExportBatchSize(sc.MaxBatch),
@@ -141,7 +255,7 @@ func runScenario(scn int, sc Scenario, tw *vh.TraceWriter, res *vh.Result) {
 		maxbatch = 1
 	}
 	tw.Emit(map[string]any{"ev": "Cfg", "sc": scn, "qcap": sc.QCap, "maxbatch": maxbatch, "blocking": sc.Blocking,
-		"name": sc.Name, "kind": kind})
+		"exportTimeout": sc.ExportTOms > 0, "name": sc.Name, "kind": kind})
 
 	var bsp sdktrace.SpanProcessor
 	if kind == "simple" {
@@ -167,7 +281,7 @@ func runScenario(scn int, sc Scenario, tw *vh.TraceWriter, res *vh.Result) {
 
 	sdktrace.SetVerifHook(func(point string, args ...any) {
 		switch point {
-		case "bsp.onend.ignored", "bsp.onend.checked", "bsp.enq.sent", "bsp.enq.dropped",
+		case "bsp.onend.ignored", "bsp.onend.checked", "bsp.enq.sent", "bsp.enq.dropped", "bsp.enq.stopped",
 			"bsp.worker.dequeued", "bsp.worker.appended", "bsp.drain.dequeued":
 			ro, ok := args[0].(sdktrace.ReadOnlySpan)
 			if !ok {
@@ -188,6 +302,9 @@ func runScenario(scn int, sc Scenario, tw *vh.TraceWriter, res *vh.Result) {
 				tw.Emit(map[string]any{"ev": "Dropped", "sc": scn, "id": id, "total": total})
 			case "bsp.onend.ignored":
 				tw.Emit(map[string]any{"ev": "Ignored", "sc": scn, "id": id})
+			case "bsp.enq.stopped":
+				tw.Emit(map[string]any{"ev": "Abandoned", "sc": scn, "id": id})
+				res.Count("abandoned", 1)
 			}
 			if point == "bsp.worker.dequeued" || point == "bsp.worker.appended" || point == "bsp.drain.dequeued" {
 				sched.Arrive("w@" + point + ":" + owner[id])
@@ -209,8 +326,11 @@ func runScenario(scn int, sc Scenario, tw *vh.TraceWriter, res *vh.Result) {
 				return
 			}
 			proc := pi.name
-			if point == "bsp.ff.stopped" || point == "bsp.ff.stopch" {
+			switch point {
+			case "bsp.ff.stopped", "bsp.ff.stopch":
 				tw.Emit(map[string]any{"ev": "FFEarly", "sc": scn, "proc": proc})
+			case "bsp.ff.marker":
+				tw.Emit(map[string]any{"ev": "FFMarker", "sc": scn, "proc": proc})
 			}
 			sched.Arrive(proc + "@" + point)
 		}
@@ -235,6 +355,84 @@ func runScenario(scn int, sc Scenario, tw *vh.TraceWriter, res *vh.Result) {
 			}
 		}
 	}
+	// caller contexts and the environment goroutines that make them done
+	var cancels []context.CancelFunc
+	defer func() {
+		for _, c := range cancels {
+			c()
+		}
+	}()
+	mkCtx := func(proc string) callCtx {
+		base := context.WithValue(context.Background(), procKey{}, procInfo{proc, scn})
+		k := sc.Ctx[proc]
+		if k == "" || kind == "simple" {
+			return callCtx{ctx: base, kind: "bg"}
+		}
+		var c context.Context
+		var cancel context.CancelFunc
+		logged := "cancel"
+		if k == "deadline" {
+			c, cancel = context.WithDeadline(base, time.Now().Add(time.Hour))
+			logged = "deadline"
+		} else {
+			c, cancel = context.WithCancel(base)
+		}
+		cancels = append(cancels, cancel)
+		var once sync.Once
+		expire := func() {
+			once.Do(func() {
+				tw.Emit(map[string]any{"ev": "CtxDone", "sc": scn, "proc": proc}) // logged BEFORE the ctx is done
+				res.Count("ctx_expired", 1)
+				cancel()
+			})
+		}
+		return callCtx{ctx: hctx{c, time.Duration(sc.SlowDoneUs) * time.Microsecond}, kind: logged, expire: expire}
+	}
+	// scripted expiry: entry "<proc>@ctx.expire/<gate>" = cancel once <proc> is parked at <gate> and it is
+	// this entry's turn; random mode: cancel CtxAfterUs after the call
+	armExpiry := func(proc string, cc callCtx, atCall bool) {
+		if cc.expire == nil {
+			return
+		}
+		if sc.Ctx[proc] == "cancelled" {
+			if !atCall {
+				cc.expire()
+			}
+			return
+		}
+		if sc.Script != nil {
+			if atCall {
+				return
+			}
+			for i, e := range sc.Script {
+				if strings.HasPrefix(e, proc+"@ctx.expire/") {
+					i, e := i, e
+					gate := e[len(proc+"@ctx.expire/"):]
+					start("ctx-"+proc, func() {
+						// an environment step has no goroutine that "arrives" by itself: wait for the entry's
+						// turn (never forcing the script forward), then for <proc> to be parked at <gate>
+						for t0 := time.Now(); sched.Pos() < i && time.Since(t0) < 3*time.Second; {
+							time.Sleep(20 * time.Microsecond)
+						}
+						for t0 := time.Now(); gate != "" && !sched.Arrived(gate) && time.Since(t0) < 150*time.Millisecond; {
+							time.Sleep(20 * time.Microsecond)
+						}
+						sched.Arrive(e)
+						cc.expire()
+					})
+					return
+				}
+			}
+			return
+		}
+		if us, ok := sc.CtxAfterUs[proc]; ok && atCall {
+			start("ctx-"+proc, func() {
+				time.Sleep(time.Duration(us) * time.Microsecond)
+				cc.expire()
+			})
+		}
+	}
+
 	for p := 0; p < sc.Producers; p++ {
 		p := p
 		r := rand.New(rand.NewSource(rng.Int63()))
@@ -254,18 +452,28 @@ func runScenario(scn int, sc Scenario, tw *vh.TraceWriter, res *vh.Result) {
 	for f := 0; f < sc.Flushers; f++ {
 		name := fmt.Sprintf("f%d", f+1)
 		r := rand.New(rand.NewSource(rng.Int63()))
+		ccs := make([]callCtx, sc.FlushesPer)
+		procs := make([]string, sc.FlushesPer)
+		for j := range ccs {
+			procs[j] = name
+			if sc.FlushesPer > 1 {
+				procs[j] = fmt.Sprintf("%s.%d", name, j+1)
+			}
+			ccs[j] = mkCtx(procs[j])
+			armExpiry(procs[j], ccs[j], false)
+		}
 		start(name, func() {
 			for j := 0; j < sc.FlushesPer; j++ {
-				proc := name
-				if sc.FlushesPer > 1 {
-					proc = fmt.Sprintf("%s.%d", name, j+1)
-				}
-				ctx := context.WithValue(context.Background(), procKey{}, procInfo{proc, scn})
+				proc, cc := procs[j], ccs[j]
 				jitter(r, 1500)
 				sched.Arrive(proc + "@call")
-				tw.Emit(map[string]any{"ev": "Call", "sc": scn, "op": "FF", "proc": proc})
-				err := bsp.ForceFlush(ctx)
-				tw.Emit(map[string]any{"ev": "Ret", "sc": scn, "op": "FF", "proc": proc, "err": errStr(err)})
+				tw.Emit(map[string]any{"ev": "Call", "sc": scn, "op": "FF", "proc": proc, "ctx": cc.kind})
+				armExpiry(proc, cc, true)
+				err := bsp.ForceFlush(cc.ctx)
+				tw.Emit(map[string]any{"ev": "Ret", "sc": scn, "op": "FF", "proc": proc, "err": errClass(err)})
+				if err != nil {
+					res.Count("ff_ret_"+strings.SplitN(errClass(err), ":", 2)[0], 1)
+				}
 				sched.Arrive(proc + "@ret")
 			}
 		})
@@ -273,27 +481,43 @@ func runScenario(scn int, sc Scenario, tw *vh.TraceWriter, res *vh.Result) {
 	for s := 0; s < sc.Stoppers; s++ {
 		name := fmt.Sprintf("s%d", s+1)
 		r := rand.New(rand.NewSource(rng.Int63()))
+		cc := mkCtx(name)
+		armExpiry(name, cc, false)
 		start(name, func() {
-			ctx := context.WithValue(context.Background(), procKey{}, procInfo{name, scn})
 			jitter(r, 2500)
 			sched.Arrive(name + "@call")
-			tw.Emit(map[string]any{"ev": "Call", "sc": scn, "op": "SD", "proc": name})
-			err := bsp.Shutdown(ctx)
-			tw.Emit(map[string]any{"ev": "Ret", "sc": scn, "op": "SD", "proc": name, "err": errStr(err)})
+			tw.Emit(map[string]any{"ev": "Call", "sc": scn, "op": "SD", "proc": name, "ctx": cc.kind})
+			armExpiry(name, cc, true)
+			err := bsp.Shutdown(cc.ctx)
+			tw.Emit(map[string]any{"ev": "Ret", "sc": scn, "op": "SD", "proc": name, "err": errClass(err)})
+			if err != nil {
+				res.Count("sd_ret_"+strings.SplitN(errClass(err), ":", 2)[0], 1)
+			}
 			sched.Arrive(name + "@ret")
 		})
 	}
 	done := make(chan struct{})
-	go func() { wg.Wait(); close(done) }()
-	grace := 600 * time.Millisecond
+	go func() {
+		wg.Wait()
+		// a Shutdown whose ctx expired leaves the drain running: the scenario is over when the
+		// exporter has been shut down (the last thing the drain's goroutine does)
+		if sc.Stoppers > 0 {
+			<-exp.shut
+		}
+		close(done)
+	}()
+	grace := 1500 * time.Millisecond
 	if sc.Script != nil {
-		grace = 3 * time.Second // gate waits add up
+		grace = 4 * time.Second // gate waits add up
 	}
 	blocked := []string{}
 	select {
 	case <-done:
 	case <-time.After(grace):
 		live.Range(func(k, _ any) bool { blocked = append(blocked, k.(string)); return true })
+		if len(blocked) == 0 {
+			blocked = append(blocked, "drain")
+		}
 		res.Count("scenarios_with_blocked_goroutines", 1)
 	}
 	followed, desync, remaining := sched.Stats()
@@ -301,10 +525,12 @@ func runScenario(scn int, sc Scenario, tw *vh.TraceWriter, res *vh.Result) {
 	res.Count("script_steps_desync", int64(desync+remaining))
 	for _, k := range sched.Skipped {
 		if i := strings.Index(k, "@"); i >= 0 {
-			res.Count("desync@"+strings.SplitN(k[i+1:], ":", 2)[0], 1)
+			res.Count("desync@"+strings.SplitN(strings.SplitN(k[i+1:], ":", 2)[0], "/", 2)[0], 1)
 		}
 	}
 	res.Count("exports", atomic.LoadInt64(&exp.exports))
+	res.Count("exports_failed", atomic.LoadInt64(&exp.failed))
+	res.Count("exports_timed_out", atomic.LoadInt64(&exp.timedOut))
 	// quiescent only if everybody returned; a late export by a leaked goroutine would otherwise be misjudged
 	tw.Emit(map[string]any{"ev": "EndScenario", "sc": scn, "quiescent": len(blocked) == 0, "blocked": blocked})
 	if len(blocked) > 0 {
@@ -318,14 +544,44 @@ func randomScenario(r *rand.Rand) Scenario {
 	sc := Scenario{
 		Producers: 1 + r.Intn(4), SpansPer: 1 + r.Intn(6), QCap: pick(1, 2, 3, 8, 64), MaxBatch: pick(1, 2, 3, 8),
 		Blocking: r.Intn(10) < 3, Flushers: r.Intn(3), FlushesPer: 1 + r.Intn(2), Stoppers: 1 + r.Intn(2),
-		BatchTimeout: pick(0, 0, 200, 1000, 5000), ExportTOms: pick(0, 2, 30000), ExpMode: "ok",
+		BatchTimeout: pick(0, 0, 200, 1000, 5000), ExportTOms: pick(0, 3, 30, 30000), ExpMode: "ok",
 		Perturb: []float64{0, 0.2, 0.6}[r.Intn(3)], Seed: r.Int63(),
+		Ctx: map[string]string{}, CtxAfterUs: map[string]int{}, SlowDoneUs: pick(0, 0, 0, 300),
 	}
 	if r.Intn(2) == 0 {
 		sc.ExpMode = "mixed"
 	}
 	if r.Intn(6) == 0 {
 		sc.Kind = "simple"
+	}
+	// caller contexts: two scenarios in five have callers whose ctx is or becomes done
+	if r.Intn(5) < 2 {
+		ctxFor := func(proc string, maxUs int) {
+			switch r.Intn(10) {
+			case 0:
+				sc.Ctx[proc] = "cancelled"
+			case 1, 2, 3:
+				sc.Ctx[proc] = "cancel"
+				sc.CtxAfterUs[proc] = r.Intn(maxUs)
+			case 4:
+				sc.Ctx[proc] = "deadline"
+				if r.Intn(2) == 0 {
+					sc.CtxAfterUs[proc] = r.Intn(maxUs)
+				}
+			}
+		}
+		for f := 1; f <= sc.Flushers; f++ {
+			for j := 1; j <= sc.FlushesPer; j++ {
+				if sc.FlushesPer > 1 {
+					ctxFor(fmt.Sprintf("f%d.%d", f, j), 1500)
+				} else {
+					ctxFor(fmt.Sprintf("f%d", f), 1500)
+				}
+			}
+		}
+		for s := 1; s <= sc.Stoppers; s++ {
+			ctxFor(fmt.Sprintf("s%d", s), 2500)
+		}
 	}
 	return sc
 }
@@ -345,6 +601,7 @@ func main() {
 	vh.Must(err)
 	res := vh.NewResult()
 	otel.SetErrorHandler(otel.ErrorHandlerFunc(func(error) {})) // exporter errors are scripted, not news
+	otel.SetLogger(logr.New(logSink{}))
 	switch os.Args[1] {
 	case "random":
 		r := rand.New(rand.NewSource(vh.Seed()))
@@ -352,6 +609,9 @@ func main() {
 			sc := randomScenario(r)
 			runScenario(i, sc, tw, res)
 			res.Executed++
+			if len(sc.Ctx) > 0 {
+				res.Count("scenarios_with_caller_ctx", 1)
+			}
 			if i < 2 {
 				res.Sample(sc)
 			}
